@@ -522,6 +522,7 @@ func runC06(p *core.Prog, r *core.Report) {
 			core.Undecide("hashModule: the writes of InitialBlock / BinaryEntrypoint were not found")
 		}
 	})
+	r.Guard("C06.R1", "filter-query-receiver", "the module's own filter query", func() { checkFilterQueryReceiver(p, r, "C06.R1") })
 	r.Guard("C06.R1", "input-order", "the order of the inputs is part of the identity", func() {
 		// "ordered inputs": for each input, in slice order, the hash receives something that tells WHICH module a map or
 		// store input refers to (its identifier), not only its kind; otherwise two inputs of the same kind can be swapped
